@@ -1,6 +1,6 @@
 #!/bin/bash
 # usage: try_patch.sh <patch.diff> <Cxx> [tier]  : apply patch to /repo, run the check, always revert
-P=$1; ID=$2; T=${3:-quick}
+P=$(realpath $1); ID=$2; T=${3:-quick}
 cd /repo || exit 2
 git apply --check "$P" 2>/dev/null || { echo "PATCH DOES NOT APPLY: $P"; exit 2; }
 git apply "$P"
